@@ -269,6 +269,56 @@ fn signal_family(c: &mut Cat, rng: &mut Rng) {
       c.measure("bus.lockstep_three_outputs_after_warmup", Z, || { for _ in 0..n { bb(o1.next()); bb(o2.next()); bb(o3.next()); bb(o2.pending_frames()); } }); }
 }
 
+/// formatting and copying the allocation-free types: `Debug`, `Clone`, `PartialEq` of the array-backed ring buffers,
+/// detectors and parameter objects are operations of the API surface too ("no operation … allocates"); the output
+/// goes to a fixed stack buffer so that only the implementation under test could touch the heap
+fn trait_family(c: &mut Cat, _rng: &mut Rng) {
+    use std::fmt::Write;
+    struct Sink { buf: [u8; 16384], n: usize }
+    impl Write for Sink {
+        fn write_str(&mut self, s: &str) -> std::fmt::Result {
+            let b = s.as_bytes(); let k = b.len().min(self.buf.len() - self.n);
+            self.buf[self.n..self.n + k].copy_from_slice(&b[..k]); self.n += k; Ok(())
+        }
+    }
+    fn show<T: std::fmt::Debug>(s: &mut Sink, t: &T) { s.n = 0; let _ = write!(s, "{:?}", t); let _ = write!(s, "{:#?}", t); bb(s.n); }
+    let mut sink = Sink { buf: [0; 16384], n: 0 };
+    let reps = (c.calls / 64 + 2).min(200);
+    // ring buffers over arrays, rotated to several positions
+    let mut fx = ring_buffer::Fixed::from([[0.0f64; 2]; 7]);
+    let mut bd = ring_buffer::Bounded::from([0i32; 5]);
+    c.measure("traits.ring_buffers_debug_clone_eq_while_rotating", Z, || {
+        for i in 0..reps { fx.push([i as f64, 0.5]); bd.push(i as i32); if i % 3 == 0 { bd.pop(); }
+            show(&mut sink, &fx); show(&mut sink, &bd);
+            let (f2, b2) = (fx.clone(), bd.clone()); bb(f2 == fx); bb(b2 == bd); bb(f2.len()); bb(b2.len()); }
+    });
+    // the RMS detector (window rotated to every position), envelope detectors, rectifiers, rate
+    let mut rms = dasp_rms::Rms::new(ring_buffer::Fixed::from([[0.0f32; 2]; 6]));
+    let mut det = dasp_envelope::Detector::peak(3.0, 9.0);
+    let mut detr = dasp_envelope::Detector::rms(ring_buffer::Fixed::from([[0.0f32; 1]; 4]), 2.0, 5.0);
+    c.measure("traits.rms_and_envelope_detectors_debug_clone_while_running", Z, || {
+        for i in 0..reps { let x = (i as f32 * 0.37).sin();
+            bb(rms.next([x, -x])); show(&mut sink, &rms); let r2 = rms.clone(); bb(r2.current());
+            bb(det.next([x, 0.5 * x])); show(&mut sink, &det); let d2 = det.clone(); bb(d2);
+            bb(detr.next([x])); show(&mut sink, &detr); let d3 = detr.clone(); bb(d3); }
+        show(&mut sink, &signal::rate(44100.0)); show(&mut sink, &dasp_peak::FullWave); show(&mut sink, &dasp_peak::PositiveHalfWave);
+    });
+    // custom-width samples and frames of them
+    c.measure("traits.custom_width_samples_debug_cmp", Z, || {
+        for i in 0..reps as i32 { let a = I24::new(i * 4097 - 8_000_000).unwrap(); let b = U48::new(i as i64 * 1_000_003).unwrap();
+            show(&mut sink, &a); show(&mut sink, &b); show(&mut sink, &[a, a]); bb(a >= a); bb(b.cmp(&b)); bb(a.clone()); }
+    });
+    // clones of stateful signal adaptors and oscillators continue without touching the heap
+    c.measure("traits.signal_adaptors_clone_mid_stream", Z, || {
+        let mut s = signal::rate(48000.0).const_hz(441.0).sine().scale_amp(0.5).delay(3);
+        for _ in 0..10 { bb(s.next()); }
+        let mut t = s.clone();
+        for _ in 0..reps { bb(s.next()); bb(t.next()); }
+        let mut n = signal::noise(7); let mut m = n.clone(); for _ in 0..reps { bb(n.next()); bb(m.next()); }
+        let mut ph = signal::rate(8.0).const_hz(1.0).phase(); let mut ph2 = ph.clone(); for _ in 0..reps { bb(ph.next()); bb(ph2.next()); }
+    });
+}
+
 fn graph_family(c: &mut Cat, _rng: &mut Rng) {
     use dasp_graph::{node, BoxedNode, Buffer, Input, NodeData};
     type G = petgraph::graph::DiGraph<NodeData<BoxedNode>, (), u32>;
@@ -378,6 +428,7 @@ fn main() {
         dsp_family(&mut c, &mut rng);
         signal_family(&mut c, &mut rng);
         graph_family(&mut c, &mut rng);
+        trait_family(&mut c, &mut rng);
         for (name, d, e) in std::mem::take(&mut c.results) { all.push((format!("{} {}", name, calls), d, e)); }
     }
     c.results = all;
